@@ -335,6 +335,47 @@ func genC08(c *RunCtx) []*Batch {
 					Sample: map[string]interface{}{"source": src, "undeclared_config_first": first, "declaring_config": declared, "undeclared_config_again": again}})
 			}
 		}
+		// a nil Config means 'the default configuration', every time: what Compile(nil, ...) builds does not depend on what
+		// was compiled with a nil Config before (directives included), and CopyConfig(nil) is a fresh configuration
+		if h%3 == 0 {
+			ct := closedTree(r, 3)
+			plain := ct.Src()
+			dumpNil := func(src string) string {
+				e, err, pan := compileSafe(nil, src)
+				if err != nil || pan != nil || e == nil {
+					return fmt.Sprintf("error: %v %v", err, pan)
+				}
+				return eval.Dump(e)
+			}
+			ref := func() string {
+				e, err, pan := compileSafe(eval.NewConfig(), plain)
+				if err != nil || pan != nil || e == nil {
+					return fmt.Sprintf("error: %v %v", err, pan)
+				}
+				return eval.Dump(e)
+			}()
+			first := dumpNil(plain)
+			dumpNil(directiveFor(r.Intn(16), r) + plain)
+			dumpNil(";;;; optimize: false\n" + plain)
+			again := dumpNil(plain)
+			ops += 5
+			if first != ref || again != ref {
+				c.Direct = append(c.Direct, DirectViolation{What: "Compile with a nil Config depends on earlier compilations with a nil Config (or differs from an empty Config)", Sig: "c08-nil-config",
+					Sample: map[string]interface{}{"source": plain, "empty_config": ref, "nil_config_first": first, "nil_config_after_directives": again}})
+			}
+			c1, c2 := eval.CopyConfig(nil), eval.CopyConfig(nil)
+			if c1 != nil && c2 != nil {
+				c1.CompileOptions[eval.Reordering] = false
+				c1.ConstantMap["KNIL"] = int64(1)
+				c1.VariableKeyMap["vnil"] = 7
+				if len(c2.CompileOptions) != 0 || len(c2.ConstantMap) != 0 || len(c2.VariableKeyMap) != 0 || c1 == c2 {
+					c.Direct = append(c.Direct, DirectViolation{What: "two CopyConfig(nil) results share state", Sig: "c08-nil-copy-shared", Sample: fmt.Sprint(snapConf(c2))})
+				}
+				delete(c1.CompileOptions, eval.Reordering)
+				delete(c1.ConstantMap, "KNIL")
+				delete(c1.VariableKeyMap, "vnil")
+			}
+		}
 		nop := 5 + r.Intn(36)
 		for o := 0; o < nop; o++ {
 			ops++
@@ -543,4 +584,32 @@ func directiveBatch(c *RunCtx) *Batch {
 			Sample: map[string]interface{}{"lines": lines, "initial": fmt.Sprint(init), "go": obs}})
 	}
 	return b
+}
+
+// closedTree: a boolean expression over literals only (compiles under any configuration, a nil one included), with
+// foldable sub-expressions, nested and/or to flatten and operands of different cost to reorder
+func closedTree(r *Rand, depth int) *GT {
+	arith := func() *GT {
+		if r.Bool() {
+			return gconst(int64(r.Intn(7)))
+		}
+		return gop([]string{"+", "-", "*"}[r.Intn(3)], gconst(int64(r.Intn(5))), gconst(int64(1+r.Intn(4))))
+	}
+	if depth <= 0 || r.Intn(4) == 0 {
+		return gop([]string{"=", "<", ">=", "!="}[r.Intn(4)], arith(), arith())
+	}
+	name := []string{"and", "or", "&&", "||"}[r.Intn(4)]
+	n := 2 + r.Intn(3)
+	ch := make([]*GT, n)
+	for i := range ch {
+		switch r.Intn(5) {
+		case 0:
+			ch[i] = gop("not", closedTree(r, depth-1))
+		case 1:
+			ch[i] = gop(name, closedTree(r, depth-1), closedTree(r, depth-2))
+		default:
+			ch[i] = closedTree(r, depth-1)
+		}
+	}
+	return gop(name, ch...)
 }
